@@ -307,11 +307,36 @@ fn coq_chunk(b: &[u8]) -> String {
     format!("[{}]", segs.join("; "))
 }
 fn coq_wire(ws: &[Wi], t: &Tail) -> String {
-    let items = coq_list(ws, |w| match w {
-        Wi::Out(c) => format!("Wo {}", coq_chunk(c)),
-        Wi::Skip => "Ws".into(),
-        Wi::Fail => "Wf".into(),
-    });
+    // runs of equal decoded chunks (byte-wise chunking of a run of letters) are written once
+    let mut parts: Vec<String> = vec![];
+    let mut i = 0;
+    while i < ws.len() {
+        match &ws[i] {
+            Wi::Out(c) => {
+                let mut j = i;
+                while j < ws.len() && matches!(&ws[j], Wi::Out(d) if d == c) {
+                    j += 1;
+                }
+                if j - i >= 3 {
+                    parts.push(format!("Wn {} {}", j - i, coq_chunk(c)));
+                } else {
+                    for _ in i..j {
+                        parts.push(format!("Wo {}", coq_chunk(c)));
+                    }
+                }
+                i = j;
+            }
+            Wi::Skip => {
+                parts.push("Ws".into());
+                i += 1;
+            }
+            Wi::Fail => {
+                parts.push("Wf".into());
+                i += 1;
+            }
+        }
+    }
+    let items = format!("[{}]", parts.join("; "));
     let tail = match t {
         Tail::None => "TNone".to_string(),
         Tail::Data(c) => format!("(TData {})", coq_chunk(c)),
@@ -332,10 +357,10 @@ fn coq_cl(cl: &Option<String>) -> String {
     }
 }
 
-fn hash(b: &[u8]) -> u64 {
-    let mut h: u64 = 7;
-    for &x in b {
-        h = (h * 31 + x as u64 + 1) % 4_294_967_296;
+fn hash(b: &[u8]) -> u128 {
+    let mut h: u128 = 0;
+    for (i, &x) in b.iter().enumerate() {
+        h += (i as u128 + 1) * (x as u128 + 1);
     }
     h
 }
@@ -560,6 +585,30 @@ fn multipart_body(fields: &[MpField]) -> Vec<u8> {
     v.extend(format!("--{BOUNDARY}--\r\n").as_bytes());
     v
 }
+/// cut points strictly inside field data (the delimiter scanner's behaviour under cuts inside
+/// `CRLF--boundary` is C15's subject: F7/F24 make some of those schedules stall or merge fields)
+fn mp_cuts(rng: &mut Rng, fields: &[MpField]) -> Vec<usize> {
+    let mut cuts = vec![];
+    let mut off = 0usize;
+    for f in fields.iter() {
+        off += format!("--{BOUNDARY}\r\ncontent-disposition: form-data; name=\"f{}\"\r\n\r\n", f.name).len();
+        if f.len >= 3 {
+            match rng.below(4) {
+                0 => {}
+                1 => cuts.extend((off + 1)..(off + f.len - 1)),
+                _ => {
+                    for _ in 0..rng.range(1, 4) {
+                        cuts.push(off + rng.range(1, f.len as u64 - 2) as usize);
+                    }
+                }
+            }
+        }
+        off += f.len + 2;
+    }
+    cuts.sort();
+    cuts.dedup();
+    cuts
+}
 fn mp_request(c: &Case) -> TestRequest {
     let mut tr = TestRequest::post().insert_header(("content-type", format!("multipart/form-data; boundary={BOUNDARY}")));
     if c.limit.is_some() || c.memory.is_some() {
@@ -592,7 +641,21 @@ async fn field_view(c: &Case, chunks: &[Vec<u8>]) -> Result<Vec<(String, Vec<Vec
 
 fn emit_case(em: &mut Emitter, id: String, c: Case) {
     let c2 = c.clone();
-    let r = catch(move || exec::run_local(async move { run_case(&c2).await }));
+    let r = catch(move || {
+        exec::run_local(async move {
+            match tokio::time::timeout(std::time::Duration::from_secs(20), run_case(&c2)).await {
+                Ok(out) => out,
+                // nothing in C12 may stall; a stall is reported as an oracle failure
+                Err(_) => CaseOut {
+                    impl_show: "STALL".into(),
+                    oracle_ok: false,
+                    oracle_why: "extractor did not finish within 20 s".into(),
+                    tags: vec![format!("ext:{}", c2.ext), "stall".into()],
+                    ..Default::default()
+                },
+            }
+        })
+    });
     let input = serde_json::to_value(&c).unwrap();
     match r {
         Ok(mut out) => {
@@ -667,7 +730,8 @@ async fn run_case(c: &Case) -> CaseOut {
     let parse_valid = match (c.ext.as_str(), c.body.kind.as_str()) {
         ("string", "badutf8") => c.body.len == 0,
         ("string", "rand") => std::str::from_utf8(&body).is_ok(),
-        ("json", k) => k == "json" && c.body.len > 0,
+        // serde_json's own verdict on the whole body (external library, not the extractor)
+        ("json", _) => serde_json::from_slice::<String>(&body).is_ok(),
         ("form", k) => k == "form",
         _ => true,
     };
@@ -729,20 +793,31 @@ async fn run_case(c: &Case) -> CaseOut {
     }
 
     // ------------------------------------------------------------------ model case
+    // the external parsers' verdict on what the decoder delivers in total (= the body unless the
+    // wire was damaged)
+    let mut delivered: Vec<u8> = vec![];
+    for w in &ws {
+        if let Wi::Out(d) = w {
+            delivered.extend_from_slice(d);
+        }
+    }
+    if let Tail::Data(d) = &tail {
+        delivered.extend_from_slice(d);
+    }
     let modelled = body.len() <= MODEL_MAX;
     let coq_case = if !modelled {
         None
     } else {
         Some(match c.ext.as_str() {
             "bytes" => format!("CBytes {} {} {}", coq_optn(c.limit), coq_cl(&c.cl), coq_wire(&ws, &tail)),
-            "string" => format!("CString {} {} {} {}", coq_optn(c.limit), coq_cl(&c.cl), coq_wire(&ws, &tail), coq_bool(std::str::from_utf8(&body).is_ok())),
+            "string" => format!("CString {} {} {} {}", coq_optn(c.limit), coq_cl(&c.cl), coq_wire(&ws, &tail), coq_bool(std::str::from_utf8(&delivered).is_ok())),
             "json" => format!(
                 "CJson {} {} {} {} {}",
                 coq_optn(c.limit),
                 coq_bool(c.ctype_ok),
                 coq_cl(&c.cl),
                 coq_wire(&ws, &tail),
-                coq_bool(serde_json::from_slice::<String>(&body).is_ok())
+                coq_bool(serde_json::from_slice::<String>(&delivered).is_ok())
             ),
             "form" => format!(
                 "CForm {} {} {} {} {}",
@@ -750,7 +825,7 @@ async fn run_case(c: &Case) -> CaseOut {
                 coq_bool(c.ctype_ok),
                 coq_cl(&c.cl),
                 coq_wire(&ws, &tail),
-                coq_bool(std::str::from_utf8(&body).is_ok())
+                coq_bool(std::str::from_utf8(&delivered).is_ok())
             ),
             _ => format!("CPayloadTBL {} {}", limit, coq_wire(&ws, &tail)),
         })
@@ -1126,16 +1201,14 @@ fn gen_case(rng: &mut Rng, thorough: bool) -> Case {
                 _ => Some(*rng.pick(&small)),
             };
             c.fields = fields;
-            let raw_len = multipart_body(&c.fields).len();
-            c.cuts = random_cuts(rng, raw_len);
+            c.cuts = mp_cuts(rng, &c.fields);
             return c;
         }
         "field_bytes" => {
             let limit = *rng.pick(&[0u64, 1, 7, 64, 300]);
             c.limit = Some(limit);
             c.body = BodySpec { kind: "runs".into(), len: pick_len(rng, limit, true), seed: rng.next() % 1000 };
-            let raw_len = multipart_body(&[MpField { name: 0, len: c.body.len }, MpField { name: 1, len: 2 }]).len();
-            c.cuts = random_cuts(rng, raw_len);
+            c.cuts = mp_cuts(rng, &[MpField { name: 0, len: c.body.len }, MpField { name: 1, len: 2 }]);
             return c;
         }
         "body_tbl" => {
@@ -1163,7 +1236,7 @@ fn gen_case(rng: &mut Rng, thorough: bool) -> Case {
         _ => 4096,
     };
     // default-limit cases with full-size bodies are expensive for the model: keep them rare
-    let big_ok = thorough || rng.chance(1, 6);
+    let big_ok = thorough || rng.chance(1, 12);
     c.limit = match rng.below(10) {
         0 => Some(0),
         1 | 2 => Some(1),
@@ -1227,8 +1300,10 @@ fn gen_case(rng: &mut Rng, thorough: bool) -> Case {
         match rng.below(4) {
             0 if ext != "payload_tbl" => c.cl = Some(rng.pick(&["abc", "-1", "18446744073709551616", "1e3"]).to_string()),
             1 if ext == "json" || ext == "form" => c.ctype_ok = false,
-            2 if c.enc != "identity" => c.corrupt = Some((rng.below(wire_len.max(1) as u64) as usize, rng.below(255) as u8)),
-            _ if c.enc != "identity" && wire_len > 1 => c.truncate = Some(rng.range(1, wire_len as u64 - 1) as usize),
+            // json/form results are re-rendered from the parsed value, which is exact only for the
+            // generated (undamaged) bodies: wire damage is applied to the raw-byte extractors
+            2 if c.enc != "identity" && ext != "json" && ext != "form" => c.corrupt = Some((rng.below(wire_len.max(1) as u64) as usize, rng.below(255) as u8)),
+            _ if c.enc != "identity" && wire_len > 1 && ext != "json" && ext != "form" => c.truncate = Some(rng.range(1, wire_len as u64 - 1) as usize),
             _ => {}
         }
     }
@@ -1248,6 +1323,9 @@ fn main() {
         for i in 0..n {
             let mut r = rng.fork();
             let c = gen_case(&mut r, args.thorough());
+            if std::env::var_os("C12_TRACE").is_some() {
+                eprintln!("gen-{i} {}", serde_json::to_string(&c).unwrap());
+            }
             emit_case(&mut em, format!("gen-{i}"), c);
         }
     }
